@@ -263,8 +263,14 @@ func execC01(p *C01Plan, rc *simkit.RunCtx) {
 		for _, d := range m.Deps {
 			deps = append(deps, modName(d))
 		}
-		if p.Anomaly == "cycle" && i == 0 {
-			deps = append(deps, modName(len(p.Mods)-1))
+		if p.Anomaly == "cycle" && len(p.Mods) >= 2 {
+			// m00 -> last -> m00
+			if i == 0 {
+				deps = append(deps, modName(len(p.Mods)-1))
+			}
+			if i == len(p.Mods)-1 {
+				deps = append(deps, modName(0))
+			}
 		}
 		if p.Anomaly == "missing" && i == len(p.Mods)-1 {
 			deps = append(deps, "nonexistent")
@@ -282,7 +288,7 @@ func execC01(p *C01Plan, rc *simkit.RunCtx) {
 	s.startErr = modules.Start()
 	rc.H("Start err=%v", s.startErr != nil)
 	if s.startErr == nil {
-		if p.Anomaly != "" {
+		if p.Anomaly == "missing" || (p.Anomaly == "cycle" && len(p.Mods) >= 2) {
 			rc.Fail("C01.anomaly-accepted", "Start accepted a dependency "+p.Anomaly, "")
 			return
 		}
